@@ -1050,6 +1050,10 @@ def attribute(clauses, kind):
     props = set()
     for c in clauses:
         p = CLAUSE_PROP.get(c, "C05")
+        if kind == "ver" and c in ("lines", "stutter", "hdr"):
+            # C13's own workload: "lines queued while the version was unknown are each added exactly
+            # once"; a refused version decision leaves version, queue and lines as they were
+            props.add("C13")
         if kind == "cell" and c in ("components", "counts"):
             # C11's own workload: "neighbours, ... other-end and connectivity answers follow from these collections"
             props.add("C11")
